@@ -30,6 +30,10 @@ claimed = {
    text="Proof plus complete enumeration: every bank MintCoins/BurnCoins call site in the elys packages (found in SSA, through declared supply-wrappers as well) sits in a function whose contract classifies the denoms it mints/burns, and those clauses are discharged on the real code: pool share mint/burn touch only that pool's share token, stablestake bond/unbond only the vault share token, vesting release and vest-now mint only the native token, the commitment MintCoins/BurnCoins wrappers never forward the ledger-only denoms (Eden, EdenB) to the bank, staking/LP reward mints are ledger-only literals. MatchAmmBalances (mints/burns pool assets) is proved unreachable from any message handler, block function or hook (migration only). Constant module names are cross-checked with the app's module-account permissions. One genuine deviation from the statement is a known finding (the burner burns any denom found at the zero address; replayed on the real app).",
    note=COMMON_NOTE + "SDK modules' own minting/burning (mint module inflation is not wired, staking slashing, gov deposit burns, IBC transfer vouchers) is outside elys code and not examined. A new mint/burn site without a classifying contract fails the scan.",
    ref="§8 C15"),
+ "C16": dict(
+   text="Proof, in three groups. (i) Byte-level key lemmas over spec functions extracted mechanically, on every run, from the SSA of the real key builders into SMT strings: the price key is prefix + separator + big-endian time (so keys of one asset and source are ordered by time) is proved; injectivity and exactness of the two lookup prefixes are REFUTED with two-letter models, replayed on the real key builders and recorded as known findings (no separator between asset and source). (ii) Under exact prefixes (the iterator's selection is declared per prefix family), contracts on the lookups: latest-from-asset-and-source returns a stored price of exactly that asset and source with nothing newer stored, none stored when not found; GetAssetPrice prefers Elys, then Band, then any source and never returns another asset; a denom without asset info or without a price yields zero. (iii) Feed handlers write only for a registered, active feeder, change nothing when rejected, and what they store is what a lookup at the block time finds; EndBlock removes every listed expired price, keeps every live one and adds nothing; the price table's writers are exactly the feed handlers, genesis, the migration and the Band IBC handler.",
+   note=COMMON_NOTE + "That the store iterator yields every stored row of a prefix (and in key order) is assumed (T5); big-endian order/length/injectivity of the 8-byte time encoding are the three stated facts about Uint64ToBigEndian. Lists bounded to 2 in EndBlock / batch feed obligations (labelled bounded).",
+   ref="§8 C16"),
  "C17": dict(
    text="Proof over every handler found by mechanical enumeration (all methods of all types implementing a module's generated MsgServer interface): for each of the 38 handlers whose message carries a governance authority (field Authority, or Creator in the parameter module) the generated contract {msg.authority != k.authority} H {err != nil and no state-changing primitive ran} holds on every path; a message type with an Authority field that is never compared fails. Owner-scoped: tradeshield update/cancel (spot, perpetual, batch forms) succeed only when the stored order's owner equals the sender.",
    note=COMMON_NOTE + "Handlers without a governance authority are listed in the evidence, not claimed. Owner-keyed position lookups of leveragelp/perpetual close are covered under C10 where claimed.",
